@@ -2083,7 +2083,43 @@ func errorTestPolarity(c *core.Ctx, f *ssa.Function, signals func(ssa.Instructio
 				errv = pa.ResolveAt(len(pa)-1, res(ret)[nres-1])
 			}
 			if failed {
-				reported := ret == nil || signalled || endOfInput || (errv != nil && !core.IsNilConst(errv))
+				// the error that is handed back reports *this* failure: it is the tested error (or a variable that holds it on this path), or
+				// an error made on the spot. The result of some other call — `if err == nil { return err }; return d.decode(v)` — may be nil.
+				byValue := false
+				if errv != nil && !core.IsNilConst(errv) {
+					evHere := pa.ResolveAt(k, t.ev)
+					shares := func(a, b ssa.Value) bool {
+						return core.SomeSource(a, func(s ssa.Value) bool { return core.SomeSource(b, func(e ssa.Value) bool { return e == s }) })
+					}
+					// ... the result of a call made *after* the test, that is; an error variable of an earlier call that the code
+					// falls back to is an old habit this rule has always let pass
+					var theCall *ssa.Call
+					if cl, isC := errv.(*ssa.Call); isC {
+						theCall = cl
+					}
+					if e, isE := errv.(*ssa.Extract); isE {
+						theCall, _ = e.Tuple.(*ssa.Call)
+					}
+					isCallResult := false
+					if theCall != nil {
+						for m := k + 1; m < len(pa); m++ {
+							if pa[m] == theCall.Block() {
+								isCallResult = true
+							}
+						}
+					}
+					switch {
+					case errv == t.ev || errv == evHere || shares(errv, t.ev) || shares(errv, evHere):
+						byValue = true
+					case provablyNonNil(pa, errv):
+						byValue = true
+					case !isCallResult:
+						byValue = true // a field, a cell, a merged variable: judged by the rules that know it
+					case sameCellUnchanged(pa, k, errv, t.ev):
+						byValue = true
+					}
+				}
+				reported := ret == nil || signalled || endOfInput || byValue
 				if !reported && !t.silent {
 					t.silent, t.witness = true, pa
 				}
